@@ -216,7 +216,8 @@ def evaluate_translation(init, prefix_rows, cases):
 
     class ACtrl(dict):
         def __missing__(self, k):
-            return ('a_loc', getattr(k, 'index', k))
+            i = getattr(k, 'index', k)
+            return (('a', i, 0), ('a', i, 1), ('a', i, 2))       # the three accumulation columns of line i
     out = []
     for case in cases:
         def mk(seq, base):
@@ -259,17 +260,17 @@ def expected_translation(case, prefix_rows):
             lut = 'INV1' if (k == 1 and 'dff' in case['kind'].lower()) else 'BUF1'
             if k >= 2 and 'dff' in case['kind'].lower():
                 continue      # a flip-flop has the outputs Q and QN only
-            ops.append((lut, o, src, Z, Z, Z, 'a_loc', o))
+            ops.append((lut, o, src, Z, Z, Z, ('a', o, 0), ('a', o, 1), ('a', o, 2)))
         return ops
     i = [(ins[k] if k < len(ins) and ins[k] is not None else Z) for k in range(4)]
     kind = case['kind'].lower()
     if kind == '__fork__':
         if case['strip_forks']:
             return []
-        return [('BUF1', o, i[0], i[1], i[2], i[3], 'a_loc', o) for o in outs if o is not None]
+        return [('BUF1', o, i[0], i[1], i[2], i[3], ('a', o, 0), ('a', o, 1), ('a', o, 2)) for o in outs if o is not None]
     o0 = outs[0] if outs and outs[0] is not None else T
     for p, names, _n in prefix_rows:
         if kind.startswith(p):
             slot = 0 if i[3] != Z else (1 if i[2] != Z else 2)
-            return [(names[slot], o0, i[0], i[1], i[2], i[3], 'a_loc', o0)]
+            return [(names[slot], o0, i[0], i[1], i[2], i[3], ('a', o0, 0), ('a', o0, 1), ('a', o0, 2))]
     return []
